@@ -25,6 +25,16 @@ struct Vis<'a> {
 }
 
 impl<'a> DeclVisitor for Vis<'a> {
+    fn version<T: V + VaryTransient>(&mut self) {
+        // every version of every history is also a declaration of its own (fewer values: there are many)
+        let (v, t) = (self.values, self.tamper_values);
+        self.values = (v / 3).max(6);
+        self.tamper_values = t.min(2);
+        self.decl::<T>();
+        self.values = v;
+        self.tamper_values = t;
+    }
+
     fn decl<T: V + VaryTransient>(&mut self) {
         if self.mode != "decl" {
             return;
@@ -103,7 +113,16 @@ impl<'a> DeclVisitor for Vis<'a> {
             };
             let bytes = match impl_encode(&v) {
                 Out::Ok(b) => b,
-                _ => continue,
+                other => {
+                    // a version that cannot write its own values: compared with the model's encoder, never skipped silently
+                    self.c.stat("pair-writer-failed");
+                    if w == r {
+                        let o = ValueOpts { prefixes: false, max_prefixes: 0, env_sig: String::new() };
+                        case_value::<W>(&v, &mut rng, self.c, &mut self.q, &o);
+                    }
+                    let _ = other;
+                    continue;
+                }
             };
             let origin = format!("hist={} writer=v{} reader=v{} value={}", hist, w, r, v.show());
             // the documented outcome table (Desert/Evolution.lean `expectedRead`) and the operational model
